@@ -4,7 +4,7 @@ rows = []
 for mp in sorted(glob.glob(os.path.join(os.path.dirname(os.path.dirname(os.path.abspath(__file__))), "seeded", "*", "meta.json"))):
     m = json.load(open(mp))
     runs = m.get("checks_run", [])
-    res = " → ".join(f"{'caught' if c['caught'] else 'MISSED'} ({c['tier']}, verif {c.get('verif_head','?')})" for c in runs) or "not yet run"
+    res = " → ".join(f"{'caught' if c['caught'] else 'MISSED'} ({c['tier']}, verif {c.get('verif_head','?')})" for c in runs) or m.get("status") or "not yet run"
     rows.append(f"| {m['id']} | {m['property']} | {(m.get('summary') or '').strip()[:160]} | {(m.get('needs') or '').strip()[:160]} | {res} |")
 TABLE = "| seed | property | change | needs | result |\n|---|---|---|---|---|\n" + "\n".join(rows)
 if __name__ == "__main__":
